@@ -929,7 +929,13 @@ func (n *Node) txArrive(tx *Tx) {
 	if n.subscribed && n.d != nil {
 		n.subscribed = false
 		st := &Step{Op: OpNewTx}
-		if sc := n.s.sc; sc.EvictPM > 0 && len(n.pool) == 1 && n.d.IsPrimary() && n.d.VerifState().TxSubscriptionOn && n.s.tape.Chance(n.stream(SApp), sc.EvictPM, 1000) {
+		first := true // nobody else has seen the transaction yet (so nobody can have proposed it)
+		for _, m := range n.s.nodes {
+			if m != n && m.everHad[tx.Hash()] {
+				first = false
+			}
+		}
+		if sc := n.s.sc; sc.EvictPM > 0 && len(n.pool) == 1 && (n.d.IsPrimary() || first) && n.d.VerifState().TxSubscriptionOn && n.s.tape.Chance(n.stream(SApp), sc.EvictPM, 1000) {
 			// the pool notifies, and the transaction is gone (replaced, expired, conflicting)
 			// by the time the library asks for the verified ones
 			n.s.fault("notified_transaction_evicted")
